@@ -493,6 +493,17 @@ func runC03(c *core.Ctx) {
 		for _, call := range an.CallsTo(fn, false, "os.File.Write") {
 			wr = append(wr, an.ErrResult(call)...)
 		}
+		// write and sync may live in a private helper whose success implies both
+		if len(syncs) == 0 && len(wr) == 0 {
+			for _, call := range an.AllCalls(fn, false) {
+				g := call.Common().StaticCallee()
+				if successImplies(g, "os.File.Sync") && successImplies(g, "os.File.Write") {
+					c.Touch(g)
+					syncs = append(syncs, an.ErrResult(call)...)
+					wr = append(wr, an.ErrResult(call)...)
+				}
+			}
+		}
 		succ := map[ssa.Instruction]bool{}
 		for _, r := range an.SuccessReturns(fn) {
 			succ[r] = true
@@ -502,7 +513,12 @@ func runC03(c *core.Ctx) {
 		e2 := an.SenseEdges(fn, wr, an.IsNil)
 		h1 := an.Ungated(an.CutSpec{Fn: fn, GateEdge: e1, Sink: isSucc})
 		h2 := an.Ungated(an.CutSpec{Fn: fn, GateEdge: e2, Sink: isSucc})
-		c.Result(len(e1) > 0 && len(e2) > 0 && len(h1) == 0 && len(h2) == 0 && len(succ) > 0, "C03.c", "ORD", "WriteToFile:write-sync-before-success", c.P.Pos(fn.Pos()),
+		delegated := false
+		if g := tailDelegate(fn); g != nil && len(succ) == 1 && successImplies(g, "os.File.Sync") && successImplies(g, "os.File.Write") {
+			// `return helper(path, data)`: the helper's verdict is WriteToFile's
+			delegated = true
+		}
+		c.Result(delegated || (len(e1) > 0 && len(e2) > 0 && len(h1) == 0 && len(h2) == 0 && len(succ) > 0), "C03.c", "ORD", "WriteToFile:write-sync-before-success", c.P.Pos(fn.Pos()),
 			"WriteToFile returns nil only after Write and Sync both succeeded", "WriteToFile can report success without a successful Write and Sync: the marker may be renamed into place before its content is durable", nil)
 	}
 
